@@ -6,7 +6,7 @@
 //! reference recogniser of `idlref`.
 
 use crate::common::{replay_dfs, Replayed, Tier};
-use crate::idlref::*;
+use simnet::idlref::*;
 use serde_json::{json, Value};
 use simnet::{complete, complete_or_stall, Wire};
 use xplore::report::Report;
